@@ -18,6 +18,13 @@ def _np_scalar(code: str):
     import numpy as np
 
     lib, nm = code.split(":")
+    if "[" in nm:
+        # an abstract scalar class parametrised with Any (`np.floating[Any]`, `np.complexfloating[Any, Any]`): what static typing of
+        # "any float array" looks like; it names no dtype of any class
+        import typing
+
+        base, args = nm[:-1].split("[")
+        return getattr(np, base)[tuple(typing.Any for _ in args.split(","))]
     return getattr(np, {"bool": "bool_"}.get(nm, nm))
 
 
